@@ -40,7 +40,7 @@ use verif_harness::{join, parse_args, rng::Rng, Recorder};
 // ---------------------------------------------------------------- scripts
 
 #[derive(Clone, Debug, PartialEq)]
-enum POp { Clone, Update, Process, Drop }
+enum POp { Clone, Update, Process, Drop, AwaitRootDrop }
 
 #[derive(Clone, Debug, PartialEq)]
 enum LOp { Connect { direct: bool, susp: bool }, Cancel { direct: bool }, Recv(u32), Suspend, Unsuspend, Disconnect, Close, Terminate, Wait }
@@ -52,7 +52,7 @@ impl Script {
     fn show(&self) -> String {
         let mut parts = vec![format!("R:{}", if self.root_drop { "d" } else { "-" })];
         for (i, p) in self.pubs.iter().enumerate() {
-            let ops = join(p.iter().map(|o| match o { POp::Clone => "c", POp::Update => "u", POp::Process => "p", POp::Drop => "d" }), " ");
+            let ops = join(p.iter().map(|o| match o { POp::Clone => "c", POp::Update => "u", POp::Process => "p", POp::Drop => "d", POp::AwaitRootDrop => "z" }), " ");
             parts.push(format!("{}:{}", if i == 0 { "P" } else { "C" }, ops));
         }
         for l in &self.links {
@@ -73,7 +73,7 @@ impl Script {
             let toks: Vec<&str> = ops.split_whitespace().collect();
             match k {
                 "R" => sc.root_drop = ops.trim() == "d",
-                "P" | "C" => sc.pubs.push(toks.iter().map(|t| match *t { "c" => POp::Clone, "u" => POp::Update, "p" => POp::Process, _ => POp::Drop }).collect()),
+                "P" | "C" => sc.pubs.push(toks.iter().map(|t| match *t { "c" => POp::Clone, "u" => POp::Update, "p" => POp::Process, "z" => POp::AwaitRootDrop, _ => POp::Drop }).collect()),
                 _ => sc.links.push(toks.iter().map(|t| {
                     let b = t.as_bytes();
                     match b[0] {
@@ -324,6 +324,8 @@ struct Shared {
     pubs_left: AtomicUsize,
     done_tx: tokio::sync::watch::Sender<bool>,
     done_rx: tokio::sync::watch::Receiver<bool>,
+    dropped_tx: tokio::sync::watch::Sender<bool>,
+    dropped_rx: tokio::sync::watch::Receiver<bool>,
 }
 
 fn mk_update(p: usize, seq: u32) -> Update { Update::WithdrawBulk(smallvec![p as u32, seq]) }
@@ -349,7 +351,7 @@ async fn root_actor(sh: &Shared, root_drop: bool) {
         let cell = sh.root.lock().unwrap().take();
         drop(cell);
         match Arc::try_unwrap(gate) {
-            Ok(g) => { drop(g); sh.sched.pause(0, |t| { t.emit("rd".into()); t.root_dropped = true; }); }
+            Ok(g) => { drop(g); let _ = sh.dropped_tx.send(true); sh.sched.pause(0, |t| { t.emit("rd".into()); t.root_dropped = true; }); }
             Err(_) => { sh.sched.with(|t| t.bad.push("root-arc-still-shared".into())); }
         }
     }
@@ -358,8 +360,16 @@ async fn root_actor(sh: &Shared, root_drop: bool) {
 async fn pub_actor(sh: &Shared, a: usize, is_root: bool, ops: &[POp], gate_slot: &mut Option<Gate>) {
     let mut seq = 0u32;
     if is_root { sh.sched.with(|t| t.pub_id[a] = Some(0)); }
-    for op in ops {
+    // "publishers done" = this publisher has returned from its last update_data call
+    let last_update = ops.iter().rposition(|o| *o == POp::Update);
+    let signal_done = |sh: &Shared| { if sh.pubs_left.fetch_sub(1, Ordering::SeqCst) == 1 { let _ = sh.done_tx.send(true); } };
+    if last_update.is_none() { signal_done(sh); }
+    for (opi, op) in ops.iter().enumerate() {
         match op {
+            POp::AwaitRootDrop => {
+                let mut rx = sh.dropped_rx.clone();
+                let _ = rx.wait_for(|v| *v).await;
+            }
             POp::Clone => {
                 if is_root || gate_slot.is_some() { continue; }
                 let (skip, root) = { let r = sh.root.lock().unwrap().clone(); (sh.sched.with(|t| t.root_terminated || t.root_dropped || t.rootq_len >= 12), r) };
@@ -379,18 +389,19 @@ async fn pub_actor(sh: &Shared, a: usize, is_root: bool, ops: &[POp], gate_slot:
                 sh.sched.pause(a, |t| { let c = t.n_pubs; t.n_pubs += 1; t.pub_id[a] = Some(c); t.clone_uuid.insert(cid, c); t.emit(format!("cn.{c}")); t.rootq_len += 1; });
             }
             POp::Update => {
-                let p = match sh.sched.with(|t| t.pub_id[a]) { Some(p) => p, None => continue };
+                let p = match sh.sched.with(|t| t.pub_id[a]) { Some(p) => p, None => { if Some(opi) == last_update { signal_done(sh); } continue } };
                 seq += 1;
                 let t_begin = sh.sched.with(|t| { let tb = t.tick(); t.upds.push(UpdRec { p, seq, t_begin: tb, t_end: None }); tb });
                 if is_root {
                     let root = sh.root.lock().unwrap().clone();
-                    let Some(root) = root else { seq -= 1; sh.sched.with(|t| { t.upds.pop(); }); continue };
+                    let Some(root) = root else { seq -= 1; sh.sched.with(|t| { t.upds.pop(); }); if Some(opi) == last_update { signal_done(sh); } continue };
                     root.update_data(mk_update(p, seq)).await;
                 } else {
-                    let Some(g) = gate_slot.as_ref() else { seq -= 1; sh.sched.with(|t| { t.upds.pop(); }); continue };
+                    let Some(g) = gate_slot.as_ref() else { seq -= 1; sh.sched.with(|t| { t.upds.pop(); }); if Some(opi) == last_update { signal_done(sh); } continue };
                     g.update_data(mk_update(p, seq)).await;
                 }
                 sh.sched.with(|t| { let te = t.tick(); if let Some(u) = t.upds.iter_mut().find(|u| u.p == p && u.t_begin == t_begin) { u.t_end = Some(te); } });
+                if Some(opi) == last_update { signal_done(sh); }
             }
             POp::Process => {
                 if is_root { continue; }
@@ -585,11 +596,22 @@ async fn link_actor(sh: &Shared, a: usize, ops: &[LOp], lo: &mut LinkObj) {
 
 // ---------------------------------------------------------------- one case
 
-struct CaseResult { trace: Vec<String>, choices: Vec<(usize, usize)>, imp: String, oracle: String, nontrivial: bool, stats: Vec<&'static str>, steps: usize }
+struct CaseResult { trace: Vec<String>, choices: Vec<(usize, usize, usize)>, imp: String, oracle: String, nontrivial: bool, stats: Vec<&'static str>, steps: usize }
 
 fn show_nums(mut v: Vec<usize>) -> String { v.sort(); if v.is_empty() { "-".into() } else { join(v, ",") } }
 
-fn run_case(sc: &Script, forced: &[usize], rng: &mut Rng) -> CaseResult {
+/// How the scheduler makes its decisions.
+enum Plan<'a> {
+    /// replay: the actor to run at each decision (from a case line); afterwards the first allowed one
+    Actors(&'a [usize]),
+    /// search: index into the allowed actors at each decision, afterwards index 0; at most `bound`
+    /// preemptions (switching away from an actor that could continue)
+    Indices(&'a [usize], usize),
+    /// seeded random choice among all runnable actors
+    Random,
+}
+
+fn run_case(sc: &Script, plan: Plan, rng: &mut Rng) -> CaseResult {
     let np = sc.pubs.len();
     let nl = sc.links.len();
     let n_actors = 1 + np + nl;
@@ -597,7 +619,8 @@ fn run_case(sc: &Script, forced: &[usize], rng: &mut Rng) -> CaseResult {
     let (gate, agent) = Gate::new(sc.cap);
     let sched = Arc::new(Sched { m: Mutex::new(Inner { turn: None, st: vec![AS::Ready; n_actors], wake_pending: vec![false; n_actors], shutdown: false, tr: Translator::new(n_actors) }), cv: Condvar::new() });
     let (done_tx, done_rx) = tokio::sync::watch::channel(false);
-    let sh = Arc::new(Shared { sched: sched.clone(), root: Arc::new(Mutex::new(Some(Arc::new(gate)))), agent, pubs_left: AtomicUsize::new(np), done_tx, done_rx });
+    let (dropped_tx, dropped_rx) = tokio::sync::watch::channel(false);
+    let sh = Arc::new(Shared { sched: sched.clone(), root: Arc::new(Mutex::new(Some(Arc::new(gate)))), agent, pubs_left: AtomicUsize::new(np), done_tx, done_rx, dropped_tx, dropped_rx });
 
     let mut handles = vec![];
     for a in 0..n_actors {
@@ -625,7 +648,6 @@ fn run_case(sc: &Script, forced: &[usize], rng: &mut Rng) -> CaseResult {
                         sched.block_on(a, fut);
                     }
                     out.gate = slot;
-                    if sh.pubs_left.fetch_sub(1, Ordering::SeqCst) == 1 { let _ = sh.done_tx.send(true); }
                 } else {
                     let mut lo = LinkObj { q: None, d: None, target: None, sub: None, suspended: false, open: false };
                     {
@@ -644,7 +666,9 @@ fn run_case(sc: &Script, forced: &[usize], rng: &mut Rng) -> CaseResult {
     }
 
     // the scheduler
-    let mut choices = vec![];
+    let mut choices: Vec<(usize, usize, usize)> = vec![];
+    let mut last: Option<usize> = None;
+    let mut preemptions = 0usize;
     let mut steps = 0usize;
     let mut stuck = false;
     {
@@ -660,10 +684,22 @@ fn run_case(sc: &Script, forced: &[usize], rng: &mut Rng) -> CaseResult {
             let runnable: Vec<usize> = (0..n_actors).filter(|&i| matches!(g.st[i], AS::Ready | AS::Paused | AS::Woken)).collect();
             if runnable.is_empty() || steps > 5000 { break; }
             let pick = if g.tr.rootq_len >= 10 && runnable.contains(&0) { 0 } else {
-                let idx = if choices.len() < forced.len() { forced[choices.len()].min(runnable.len() - 1) } else { rng.below(runnable.len() as u64) as usize };
-                choices.push((idx, runnable.len()));
-                runnable[idx]
+                // the actor that ran last goes first in the list of options
+                let mut allowed = runnable.clone();
+                if let Some(l) = last { if let Some(pos) = allowed.iter().position(|&x| x == l) { allowed.remove(pos); allowed.insert(0, l); } }
+                let can_continue = last.map(|l| runnable.contains(&l)).unwrap_or(false);
+                if let Plan::Indices(_, bound) = plan { if can_continue && preemptions >= bound { allowed.truncate(1); } }
+                let k = choices.len();
+                let idx = match plan {
+                    Plan::Actors(f) => if k < f.len() { allowed.iter().position(|&x| x == f[k]).unwrap_or(0) } else { 0 },
+                    Plan::Indices(f, _) => if k < f.len() { f[k].min(allowed.len() - 1) } else { 0 },
+                    Plan::Random => rng.below(allowed.len() as u64) as usize,
+                };
+                if can_continue && idx != 0 { preemptions += 1; }
+                choices.push((idx, allowed.len(), allowed[idx]));
+                allowed[idx]
             };
+            last = Some(pick);
             steps += 1;
             g.turn = Some(pick);
             sched.cv.notify_all();
@@ -853,11 +889,17 @@ fn gen_script(r: &mut Rng, big: bool) -> Script {
         ops.push(LOp::Wait);
         links.push(ops);
     }
-    Script { cap, root_drop: terminate_used && r.chance(2, 3), pubs, links }
+    let root_drop = terminate_used && r.chance(2, 3);
+    if root_drop {
+        for ops in pubs.iter_mut().skip(1) {
+            if ops.last() != Some(&POp::Drop) && r.chance(1, 2) { ops.push(POp::AwaitRootDrop); ops.push(POp::Process); ops.push(POp::Process); }
+        }
+    }
+    Script { cap, root_drop, pubs, links }
 }
 
 fn case_line(sc: &Script, res: &CaseResult) -> String {
-    format!("cap={}|{}|{}|{}", sc.cap, res.trace.join(" "), sc.show(), join(res.choices.iter().map(|c| c.0), " "))
+    format!("cap={}|{}|{}|{}", sc.cap, res.trace.join(" "), sc.show(), join(res.choices.iter().map(|c| c.2), " "))
 }
 
 fn record(rec: &mut Recorder, sc: &Script, res: CaseResult, kind: &str) {
@@ -881,6 +923,8 @@ fn corpus() -> Vec<(Script, Vec<usize>)> {
         (s(2, "R:-/P:u u/C:c u p u p/L:cq0 s r2 w/L:cd0 w"), vec![]),
         // terminate with an attached clone and a queue + a direct link, root dropped in the trace
         (s(2, "R:d/P:u/C:c p u p p p/L:cq0 r1 t w/L:cd0 w"), vec![]),
+        // clone not yet registered when Terminate is handled: it only learns from the closed channel after the root drop
+        (s(2, "R:d/P:u/C:c u z p p/L:cq0 t w"), vec![]),
         // cancelled connects
         (s(1, "R:-/P:u u/L:aq cq0 r2 w/L:ad w"), vec![]),
         // unsuspend path (gate side exists, Link never sends it)
@@ -902,7 +946,7 @@ fn main() {
             let sc = Script::parse(cap, parts[2]);
             let forced: Vec<usize> = parts[3].split_whitespace().map(|x| x.parse().unwrap()).collect();
             let mut r = Rng::new(0);
-            let res = run_case(&sc, &forced, &mut r);
+            let res = run_case(&sc, Plan::Actors(&forced), &mut r);
             record(&mut rec, &sc, res, "replay");
         }
         rec.finish(&args, t0.elapsed().as_secs_f64());
@@ -913,13 +957,13 @@ fn main() {
     for (sc, forced) in corpus() {
         for _ in 0..(if args.thorough { 200 } else { 40 }) {
             let mut r = rng.fork();
-            let res = run_case(&sc, &forced, &mut r);
+            let res = run_case(&sc, if forced.is_empty() { Plan::Random } else { Plan::Actors(&forced) }, &mut r);
             record(&mut rec, &sc, res, "corpus");
         }
     }
 
     // random scripts x random schedules, several workers in parallel (results kept in order)
-    let budget = Duration::from_secs(if args.thorough { 330 } else { 35 });
+    let budget = Duration::from_secs(if std::env::var("C08_EXHAUSTIVE").is_ok() { 0 } else if args.thorough { 240 } else { 28 });
     let workers = 6usize;
     let batch = 60usize;
     while t0.elapsed() < budget {
@@ -928,30 +972,34 @@ fn main() {
         std::thread::scope(|s| {
             let hs: Vec<_> = seeds.chunks(batch).map(|chunk| {
                 let chunk = chunk.to_vec();
-                s.spawn(move || chunk.into_iter().map(|mut r| { let big = r.chance(1, 3); let sc = gen_script(&mut r, big); let res = run_case(&sc, &[], &mut r); (sc, res) }).collect::<Vec<_>>())
+                s.spawn(move || chunk.into_iter().map(|mut r| { let big = r.chance(1, 3); let sc = gen_script(&mut r, big); let res = run_case(&sc, Plan::Random, &mut r); (sc, res) }).collect::<Vec<_>>())
             }).collect();
             for h in hs { results.push(h.join().unwrap()); }
         });
         for v in results { for (sc, res) in v { record(&mut rec, &sc, res, "random"); } }
     }
 
-    // exhaustive: every schedule of small scripts (thorough: larger scripts / more of them)
-    let small: Vec<Script> = if args.thorough {
-        vec![Script::parse(1, "R:-/P:u u/L:cq0 r1 x w"), Script::parse(1, "R:-/P:u/C:c u p/L:cq0 s w"), Script::parse(2, "R:-/P:u u/L:cd0 x w")]
-    } else { vec![Script::parse(1, "R:-/P:u u/L:cq0 x w")] };
-    let ex_budget = Duration::from_secs(if args.thorough { 120 } else { 15 });
+    // bounded-exhaustive: EVERY schedule with at most `bound` preemptions (switching away from an actor
+    // that could continue) of small scripts, enumerated depth-first through the pause points
+    let small: Vec<(Script, usize)> = if let Ok(sc) = std::env::var("C08_EXHAUSTIVE") {
+        vec![(Script::parse(1, &sc), std::env::var("C08_BOUND").ok().and_then(|b| b.parse().ok()).unwrap_or(2))]
+    } else if args.thorough {
+        vec![(Script::parse(1, "R:-/P:u/L:cq0 w"), 3), (Script::parse(1, "R:-/P:u u/L:cq0 x w"), 2), (Script::parse(1, "R:-/P:u/C:c u p/L:cq0 s w"), 2),
+             (Script::parse(2, "R:-/P:u u/L:cd0 x w"), 2), (Script::parse(1, "R:d/P:u/C:c p u z p/L:cq0 t w"), 1)]
+    } else {
+        vec![(Script::parse(1, "R:-/P:u u/L:cq0 x w"), 2), (Script::parse(1, "R:-/P:u/C:c u p/L:cd0 w"), 1)]
+    };
+    let ex_budget = Duration::from_secs(if args.thorough { 200 } else { 28 });
     let t1 = Instant::now();
     let per = ex_budget / small.len() as u32;
-    for sc in &small {
+    for (sc, bound) in &small {
         let t2 = Instant::now();
         let mut prefix: Vec<usize> = vec![];
         let mut complete = false;
         let mut n = 0u64;
         loop {
             let mut r = Rng::new(0);
-            // beyond the forced prefix always take option 0 (Rng unused: force zeros)
-            let forced: Vec<usize> = prefix.iter().cloned().chain(std::iter::repeat(0).take(6000)).collect();
-            let res = run_case(sc, &forced, &mut r);
+            let res = run_case(sc, Plan::Indices(&prefix, *bound), &mut r);
             let ch = res.choices.clone();
             record(&mut rec, sc, res, "exhaustive");
             n += 1;
@@ -962,7 +1010,7 @@ fn main() {
             match next { Some(p) => prefix = p, None => { complete = true; break; } }
             if t2.elapsed() > per { break; }
         }
-        rec.bump_by(&format!("exhaustive.{}.schedules", sc.show().replace(' ', "_")), n);
+        rec.bump_by(&format!("exhaustive.{}.preemptions<={bound}.schedules", sc.show().replace(' ', "_")), n);
         rec.bump(&format!("exhaustive.{}", if complete { "complete" } else { "cut-by-budget" }));
     }
     let _ = t1;
